@@ -63,6 +63,36 @@ def reserved_sets():
     return set(reflex.KEYWORDS), api
 
 
+def candidate_names(n):
+    """The first n short names in the order a minifier would hand them out (a..z, ba, bb, ...).  Only used to pick hostile keep-file
+    entries, never as an oracle."""
+    out = []
+    i = 0
+    while len(out) < n:
+        k, name = i, b''
+        while True:
+            name = bytes([97 + k % 26]) + name
+            k //= 26
+            if k == 0:
+                break
+        out.append(name)
+        i += 1
+    return out
+
+
+def names_before_reserved(n):
+    """Candidates that directly precede a reserved candidate (s before t, dn before do, ie before if, ...), runs of up to three."""
+    kws, api = reserved_sets()
+    cands = candidate_names(n)
+    out = []
+    for i, c in enumerate(cands):
+        if c in kws or c in api:
+            for j in (1, 2, 3)[:1 + i % 3]:
+                if i - j >= 0 and cands[i - j] not in kws and cands[i - j] not in api:
+                    out.append(cands[i - j])
+    return sorted(set(out))
+
+
 def check_mapping(ctx, pairs, config, keep, case):
     """The offline deciding monitor.  pairs: [(in_name, out_name)] in order of occurrence."""
     kws, api = reserved_sets()
@@ -370,7 +400,12 @@ def run_shard(spec, ctx):
                     continue
                 ctx.feature('big_programs')
                 config = ('default', 'keep_file')[i % 2]
-                run_one(ctx, src, big.scopes, config, [b'a', b'ba', b'v1', b'aaa', b'abc'], workdir)
+                # kept names include the candidates right before reserved ones: the name handed out after skipping a kept candidate
+                # has to pass every test again
+                hostile = names_before_reserved(spec.get('nnames', 3000))
+                ctx.feature('keepfile_has_names_before_reserved_candidates', len(hostile))
+                run_one(ctx, src, big.scopes, config, [b'a', b'ba', b'v1', b'aaa', b'abc'] + hostile, workdir)
+                run_one(ctx, src, big.scopes, 'keep_file', [b'a', b'ba', b'v1', b'aaa', b'abc'] + hostile, workdir)
         else:
             from pico8.lua import lua
             kws, api = reserved_sets()
@@ -438,6 +473,8 @@ def gates(m, tier):
     if f.get('keepfile_names_by_first_byte', 0) < 181 or mon.get('reused_args_runs', 0) < 40:
         missed.append('keep-file names by first byte: %d; runs with a reused writer-args dict: %d'
                       % (f.get('keepfile_names_by_first_byte', 0), mon.get('reused_args_runs', 0)))
+    if f.get('keepfile_has_names_before_reserved_candidates', 0) < 15:
+        missed.append('keep-file names directly before reserved candidates: %d' % f.get('keepfile_has_names_before_reserved_candidates', 0))
     if mon.get('cli_runs', 0) < 10:
         missed.append('cli runs: %d' % mon.get('cli_runs', 0))
     return missed
